@@ -220,7 +220,8 @@ impl fmt::Display for ESpec {
                     (Some(l), Some(v), Some(wb)) => write!(f, ":{{{l},{v},{wb}}}"),
                     (None, Some(v), None) => write!(f, ":{{{v}}}"),
                     (None, Some(v), Some(wb)) => write!(f, ":{{{v},{wb}}}"),
-                    (None, None, Some(wb)) => write!(f, ":{{{wb}}}"),
+                    // a lone number in braces reads as a level: keep the level slot
+                    (None, None, Some(wb)) => write!(f, ":{{,{wb}}}"),
                 }
             }
 
